@@ -62,6 +62,9 @@ def run(ck, prog):
             pair = Pair(prog, positive=("N", "k", "w"))
             pair.code.int_atoms = {"k"}
             pair.ref.int_atoms = {"k"}
+            if parity == "even":          # w = 2k >= 2, so k >= 1 (w = 2k+1 allows k = 0)
+                pair.code.pos_int_atoms = {"k"}
+                pair.ref.pos_int_atoms = {"k"}
             args = dict(extra)
             args["bloblen"] = wval
             paths = pair.code.run_function(f, args)
@@ -82,6 +85,9 @@ def run(ck, prog):
             # (w-1)/2 floor / ceil
             exp_left = K - Rat.const(1) if parity == "even" else K
             exp_right = K
+            # an unreduced int()/floor()/ceil() atom means the pad could not be brought to a polynomial in k: not a verdict
+            ck.shape(not any(a.startswith(("int(", "floor(", "ceil(", "round(")) for x in (left, right) for a in x.atoms()),
+                     "%s: pad sizes reduce to polynomials in k for %s windows (left=%r right=%r)" % (tag, parity, left, right), f.loc())
             ck.ob("PARITY", construct, left.equals(exp_left), expected="floor((w-1)/2) = %r" % exp_left, found=repr(left),
                   slot="%s:%s:left-pad" % (tag, parity), where=f.loc())
             ck.ob("PARITY", construct, right.equals(exp_right), expected="ceil((w-1)/2) = %r" % exp_right, found=repr(right),
